@@ -83,3 +83,25 @@ class ExactLearner(BaseEstimator):
     def predict_proba(self, X):
         p = self.predict(X).astype(float)
         return np.stack([1.0 - p, p], axis=1)
+
+
+class NestedExactLearner(BaseEstimator):
+    """The same exact learner, but its fitted state lives in a NESTED mutable object (like the steps of a sklearn
+    Pipeline): `fit` does not set fresh attributes on the estimator itself, it mutates `self.inner`.  A caller that
+    makes only a shallow copy of the unfitted template per training run shares the fitted state between runs."""
+
+    def __init__(self, kind="all", tag=None, inner=None):
+        self.kind = kind
+        self.tag = tag
+        self.inner = inner if inner is not None else {"model": ExactLearner(kind, tag)}
+
+    def fit(self, X, y, sample_weight=None):
+        self.inner["model"].fit(X, y, sample_weight=sample_weight)
+        self.classes_ = np.array([0, 1])
+        return self
+
+    def predict(self, X):
+        return self.inner["model"].predict(X)
+
+    def predict_proba(self, X):
+        return self.inner["model"].predict_proba(X)
